@@ -6,6 +6,7 @@ import SakuraVerif.Driver.SutOps
 import SakuraVerif.Driver.ExprOps
 import SakuraVerif.Driver.CoreOps
 import SakuraVerif.Driver.ScriptOps
+import SakuraVerif.Driver.TimeOps
 open Sakura Sakura.Wire Sakura.Driver
 
 def handle (line : String) : String :=
@@ -30,6 +31,8 @@ def handle (line : String) : String :=
   | ["coresem", prog] => "ok " ++ coreSem prog
   | ["spec.c03", prog, bin] => "ok " ++ specC03 prog (unhex bin)
   | ["script", prog] => "ok " ++ scriptRun prog
+  | ["timespec", tb, fr, de, sh, args] => s!"ok out={Sakura.Time.getTime (parseInt tb) (parseInt fr) (parseInt de) (parseInt sh) (parseIntList args)}"
+  | ["pflaw", p, evs] => "ok ev=" ++ showEvents (pfLaw (parseInt p) (parseEvents evs))
   | _ => "bad-op"
 
 partial def loop (h : IO.FS.Stream) (out : IO.FS.Stream) : IO Unit := do
